@@ -33,6 +33,7 @@ ASSUMPTIONS = [
 TECHNIQUE = "reference-model runtime monitor (visibility from unweighted respondent masks)"
 DESIGN_REF = "DESIGN.md 4 C09"
 REQUIRED_REACH = ["visible_rows", "visible_cols", "subtotal_visibility", "shape_and_labels",
+                  "collator:SortByValueCollator", "class:sorted_by_value_with_prune",
                   "strand_visible", "class:pruned_element", "class:weighted_only_empty",
                   "class:answered_never_selected", "class:subtotals_pruned",
                   "class:pair=MRxMR", "class:pair=CATxMR", "class:pair=MRxCAT"]
@@ -88,11 +89,27 @@ def make_case(unit):
             dd["prune"] = True
         elif g.chance(0.2):
             dd["prune"] = g.pick([False, None, "true", 1])  # only `True` enables pruning
-        if g.chance(0.3) and ids:
-            order = T.random_order(g, ids, [], ids, [], "rows", nd == 1, ["count_unweighted"],
-                                   kinds=["explicit", "label", "payload_order"])
+        if g.chance(0.55) and ids:
+            # any ordering, incl. sort-by-value on measures that are NaN for vectors whose
+            # respondents all carry zero weight or sit in categories without a numeric value:
+            # an undefined sort value is no reason to prune
+            od_ = None if nd == 1 else (nd - 1 if d == nd - 2 else nd - 2)
+            oids = T.transform_ids(o, od_)[0] if od_ is not None else []
+            measures = (["percent", "count_weighted", "percent_moe", "base_weighted"]
+                        if nd == 1 else
+                        ["row_percent", "col_percent", "table_percent", "count_weighted",
+                         "row_percent_moe", "col_std_err", "z_score"])
+            kinds = ["explicit", "label", "payload_order"] + (
+                ["univariate_measure"] * 3 if nd == 1 else
+                ["opposing_element"] * 3 + (["marginal"] * 2 if key == "rows_dimension" else []))
+            order = T.random_order(g, ids, [], oids, [], "rows" if key == "rows_dimension"
+                                   else "cols", nd == 1, measures, kinds=kinds)
             if order:
+                if order.get("type") == "marginal":
+                    order["marginal"] = g.pick(["scale_mean", "scale_median", "scale_mean_stddev",
+                                                "weighted_base"])
                 dd["order"] = order
+                res_kind = order.get("type")
         if not dd:
             del tr[key]
     return {"template": template, "spec": sim.spec_to_dict(spec), "transforms": tr,
@@ -192,6 +209,9 @@ def check_case(case):
             expected[d] = vis
         for d, od, key, oname in dims:
             tdim = tr.get(key) or {}
+            if tdim.get("prune") is True and (tdim.get("order") or {}).get("type") in (
+                    "opposing_element", "marginal", "univariate_measure", "opposing_insertion"):
+                res.classes.append("sorted_by_value_with_prune")
             got = read(part, oname)
             if not res.check("order_readable", got.ok, "exception/%s" % oname,
                              {"exc": repr(got.exc)}):
